@@ -67,7 +67,9 @@ inductive Event
   | fc (c : Nat) (ty : Ty)                                  -- ClientID 0, token "new-client" / "anonymous:…"
   | hs (c : Nat) (ty : Ty) (k : CRef) (resp : RespRef)      -- every other well-formed handshake request
   | mal (c : Nat)                                           -- payload that is not JSON
-  | ban (ip : Nat) | unban (ip : Nat)                       -- BruteForceProtector.BanIP / UnbanIP (or expiry of a ban)
+  | ban (ip : Nat) | unban (ip : Nat)                       -- BruteForceProtector.BanIP (temporary, long) / UnbanIP
+  | banp (ip : Nat)                                         -- BanIP(ip, 0): a permanent ban
+  | bans (ip : Nat)                                         -- BanIP with a duration that has run out before the next event
   | bl (ip : Nat) | unbl (ip : Nat)                         -- IPManager.AddToBlacklist / RemoveFromBlacklist (one address)
   | blr (g : Nat) | unblr (g : Nat)                         -- the same for a CIDR range: range `g` covers addresses 2g, 2g+1
   | restart                                                 -- a new IPManager over the same storage replaces the live one
@@ -97,7 +99,8 @@ structure Env where
   lastCh : Nat → Option Nat := fun _ => none
   prevCh : Nat → Option Nat := fun _ => none
   usedSeen : List Nat := []
-  xban : Nat → Bool := fun _ => false       -- ghost: banned by an explicit `ban` event (⊆ banned)
+  xban : Nat → Bool := fun _ => false       -- ghost: banned by an explicit `ban`/`banp` event (⊆ banned)
+  xperm : Nat → Bool := fun _ => false      -- ghost: permanently banned by an explicit `banp` event (⊆ perm)
   bl : Nat → Bool := fun _ => false         -- IPManager.blacklist
   blr : Nat → Bool := fun _ => false        -- IPManager.blacklist, CIDR entries (per range)
   wl : Nat → Bool := fun _ => false         -- IPManager.whitelist (exact entries)
@@ -124,7 +127,8 @@ structure Srv where
   ctl : Nat → Option Ctl := fun _ => none     -- ClientRegistry.connMap
   closed : Nat → Bool := fun _ => false       -- the connection's StreamProcessor was closed (by eviction)
   reg : Nat → Option Nat := fun _ => none     -- ClientRegistry.clientIDMap (client ↦ ConnID)
-  banned : Nat → Bool := fun _ => false       -- BruteForceProtector.bannedIPs
+  banned : Nat → Bool := fun _ => false       -- BruteForceProtector.bannedIPs: a record that has not expired
+  perm : Nat → Bool := fun _ => false         -- … and that record is permanent (ExpiresAt zero)
   fails : Nat → Nat := fun _ => 0             -- failures inside the window (= TotalCount while no window elapses)
   rlUsed : Nat → Nat := fun _ => 0            -- tokens taken from the address's bucket
   nextNonce : Nat := 0
@@ -157,7 +161,9 @@ def Env.track (g : Env) (now nc : Nat) (e : Event) (r : RespObs) : Env :=
     | _ => g
   | .mal _ => g
   | .ban ip => { g with xban := upd g.xban ip true }
-  | .unban ip => { g with xban := upd g.xban ip false }
+  | .unban ip => { g with xban := upd g.xban ip false, xperm := upd g.xperm ip false }
+  | .banp ip => { g with xban := upd g.xban ip true, xperm := upd g.xperm ip true }
+  | .bans ip => if g.xperm ip then g else { g with xban := upd g.xban ip false }
   | .bl ip => { g with bl := upd g.bl ip true }
   | .unbl ip => { g with bl := upd g.bl ip false }
   | .blr r => { g with blr := upd g.blr r true }
@@ -177,7 +183,7 @@ def Env.track (g : Env) (now nc : Nat) (e : Event) (r : RespObs) : Env :=
 /-- `BruteForceProtector.RecordFailure`: count, then ban permanently at `PermanentBanAt`, else temporarily at `MaxFailures`. -/
 def recordFailure (s : Srv) (ip : Nat) : Srv :=
   if s.fails ip + 1 ≥ security.DefaultPermanentBanAt then
-    { s with fails := upd s.fails ip (s.fails ip + 1), banned := upd s.banned ip true }
+    { s with fails := upd s.fails ip (s.fails ip + 1), banned := upd s.banned ip true, perm := upd s.perm ip true }
   else if s.fails ip + 1 ≥ security.DefaultMaxFailures then
     { s with fails := upd s.fails ip (s.fails ip + 1), banned := upd s.banned ip true }
   else { s with fails := upd s.fails ip (s.fails ip + 1) }
@@ -328,7 +334,10 @@ def stepCore (s : Srv) : Event → Srv × RespObs
   | .hs c ty k resp => handleHandshake s c ty { zeroId := k == .zero, first := false, k := k, resp := s.env.resolve resp }
   | .mal _ => (s, .none)                                              -- json.Unmarshal fails before anything else
   | .ban ip => ({ s with banned := upd s.banned ip true }, .na)
-  | .unban ip => ({ s with banned := upd s.banned ip false }, .na)
+  | .unban ip => ({ s with banned := upd s.banned ip false, perm := upd s.perm ip false }, .na)
+  | .banp ip => ({ s with banned := upd s.banned ip true, perm := upd s.perm ip true }, .na)
+  -- `banIP`: a temporary ban never replaces a permanent one; otherwise it replaces the record, and this one has run out
+  | .bans ip => (if s.perm ip then s else { s with banned := upd s.banned ip false }, .na)
   | .bl _ => (s, .na)
   | .unbl _ => (s, .na)
   | .blr _ => (s, .na)
